@@ -4,6 +4,8 @@ Scenario runner + oracles for the cluster-level properties (C03..C07).
 A scenario is {'names', 'phens', 'cache', 'periods', 'ops'}; ops are strings:
   in <i> <d>      datum d enters instance i (engine runs to quiescence)
   pass <i>        one iteration of i's outgoing loop (real `_tcp_outgoing` body)
+  inq <i> <d>               datum queued in i's receiver, engine not run yet
+  deli <src> <dst>          deliver while dst's engine thread races the distributed thread for the decider's lock
   passi <i> <point> <src>   the same, with i's incoming thread handling the next message from <src> at the boundary
                   <point> of the outgoing thread (lock = after the decision phase, send:<peer> = during that send)
   del <i> <j>     deliver the oldest in-flight message on link i->j (order per pair preserved)
@@ -203,6 +205,13 @@ class Runner:
             # the distributed main thread hands the message to the decider, but the engine thread has not run yet: the
             # completions wait in the producer's queue until the next engine cycle (e.g. the next input)
             c.deliver(w[1], w[2], settle=False)
+        elif k == 'inq':
+            # data handed to the receiver by a feeder thread; the engine thread has not run yet
+            if c.insts[w[1]].alive:
+                c.insts[w[1]].receiver.add_data(int(w[2]))
+        elif k == 'deli':
+            # deliver with the engine thread racing the distributed thread for the decider's lock (see Inst.receive_racing_engine)
+            c.deliver(w[1], w[2], racing=True)
         elif k == 'dup':
             c.net.fail_after_delivery.add((w[1], w[2]))
         elif k == 'down':
